@@ -438,6 +438,176 @@ GENERATORS = {
 }
 
 
+class TrMap(Tr):
+    """expressions in which whole sub-expressions (matched by their `ast.unparse` text) stand for Lean variables"""
+
+    def __init__(self, mapping, lit_type="Int"):
+        super().__init__(lambda o, a: (_ for _ in ()).throw(Untranslatable("attr %s.%s" % (o, a))), lit_type=lit_type)
+        self.mapping = mapping
+        self.locals = {}
+
+    def expr(self, e):
+        u = ast.unparse(e)
+        if u in self.mapping:
+            return self.mapping[u]
+        if isinstance(e, ast.Name) and e.id in self.locals:
+            return self.locals[e.id]
+        return super().expr(e)
+
+
+def _only(nodes, what):
+    nodes = list(nodes)
+    if len(nodes) != 1:
+        raise Untranslatable("%s: expected exactly one, found %d" % (what, len(nodes)))
+    return nodes[0]
+
+
+def gen_decisions():
+    """small decision fragments (thresholds, comparisons, index choices) of sort, order_gfa, realign, view and stat"""
+    out = []
+
+    # ---- sort.process_alignment: what follows the loop over the path
+    _, src = src_of("gaftools/cli/sort.py")
+    fn = find_func(ast.parse(src), "process_alignment")
+    loop_at = max(i for i, st in enumerate(fn.body) if isinstance(st, ast.For))
+    tail = [st for st in fn.body[loop_at + 1:] if isinstance(st, ast.If)]
+    m = {"orient_list.count('>')": "(nf : Int)", "orient_list.count('<')": "(nr : Int)",
+         "int(line[6])": "plen", "int(line[7])": "ps", "int(line[8])": "pe"}
+    inv_if = _only([st for st in tail if any(isinstance(a, ast.Assign) and ast.unparse(a.targets[0]) == "inv" for a in st.body)], "inv test")
+    if ast.unparse(inv_if.body[0].value) != "1" or inv_if.orelse:
+        raise Untranslatable("inv assignment")
+    rev_if = _only([st for st in tail if any(isinstance(a, ast.Assign) and ast.unparse(a.targets[0]) == "start" for a in st.body)], "orientation test")
+
+    def branch(stmts):
+        t = TrMap(m)
+        start = node = None
+        for a in stmts:
+            if not (isinstance(a, ast.Assign) and len(a.targets) == 1 and isinstance(a.targets[0], ast.Name)):
+                raise Untranslatable(ast.dump(a))
+            nm = a.targets[0].id
+            if nm == "start":
+                start = t.expr(a.value)
+            elif nm == "n":
+                if not (isinstance(a.value, ast.Subscript) and ast.unparse(a.value.value) == "path"):
+                    raise Untranslatable("n = %s" % ast.unparse(a.value))
+                node = int(ast.literal_eval(a.value.slice))
+            elif nm in ("bo", "no"):
+                if ast.unparse(a.value) != "int(nodes[n].tags['%s'][1])" % nm.upper():
+                    raise Untranslatable("%s = %s" % (nm, ast.unparse(a.value)))
+            else:
+                t.locals[nm] = t.expr(a.value)
+        if start is None or node is None:
+            raise Untranslatable("branch without start / n")
+        return start, node
+    s_rev, n_rev = branch(rev_if.body)
+    s_fwd, n_fwd = branch(rev_if.orelse)
+    out.append("""/-- sort.process_alignment, after the loop: inversion flag, reverse-majority test, start coordinate and path index of the
+    anchoring step in the two branches (`nf`/`nr` = scaffold steps walked forward / backward) -/
+def sortInv (nf nr : Nat) : Bool := decide %s
+def sortRev (nf nr : Nat) : Bool := decide %s
+def sortStartRev (plen ps pe : Int) : Int := %s
+def sortStartFwd (plen ps pe : Int) : Int := %s
+def sortNodeRev : Int := %d
+def sortNodeFwd : Int := %d""" % (TrMap(m).expr(inv_if.test), TrMap(m).expr(rev_if.test), s_rev, s_fwd, n_rev, n_fwd))
+
+    # ---- order_gfa.decompose_and_order
+    _, src = src_of("gaftools/cli/order_gfa.py")
+    fn = find_func(ast.parse(src), "decompose_and_order")
+    deg = {}
+    for st in ast.walk(fn):
+        if isinstance(st, ast.Assign) and isinstance(st.targets[0], ast.Name) and st.targets[0].id in ("degree_one", "degree_two"):
+            lc = st.value
+            if not (isinstance(lc, ast.ListComp) and len(lc.generators) == 1 and len(lc.generators[0].ifs) == 1):
+                raise Untranslatable("degree list")
+            deg[st.targets[0].id] = TrMap({"len(x.neighbors())": "(d : Int)"}).expr(lc.generators[0].ifs[0])
+    asserts = [st.test for st in ast.walk(fn) if isinstance(st, ast.Assert) and "degree_" in ast.unparse(st.test)]
+    a1 = _only([t for t in asserts if "degree_one" in ast.unparse(t)], "census one")
+    a2 = _only([t for t in asserts if "degree_two" in ast.unparse(t)], "census two")
+    mo = {"len(degree_one)": "(n1 : Int)", "len(degree_two)": "(n2 : Int)", "len(scaffold_graph)": "(total : Int)",
+          "coordinates[0]": "a", "coordinates[-1]": "b", "coordinates[i]": "x", "coordinates[i + 1]": "y"}
+    sn_if = _only([st for st in ast.walk(fn) if isinstance(st, ast.If) and "tags['SN']" in ast.unparse(st.test)], "SN test")
+    sn_src = ast.unparse(sn_if.test)
+    setexpr = _only([n for n in ast.walk(sn_if.test) if isinstance(n, ast.Call) and ast.unparse(n.func) == "len"], "len(set(..))")
+    if ast.unparse(setexpr) != "len(set((new_graph[n].tags['SN'] for n in traversal_scaffold_only)))":
+        raise Untranslatable("SN set: " + ast.unparse(setexpr))
+    sn_test = TrMap({ast.unparse(setexpr): "(k : Int)"}).expr(sn_if.test)
+    rev_if2 = _only([st for st in ast.walk(fn) if isinstance(st, ast.If) and ast.unparse(st.test).startswith("coordinates[0]")], "orientation test")
+    if sorted(ast.unparse(x) for x in rev_if2.body) != ["coordinates.reverse()", "traversal.reverse()", "traversal_scaffold_only.reverse()"]:
+        raise Untranslatable("orientation body")
+    inc_for = _only([st for st in ast.walk(fn) if isinstance(st, ast.For) and ast.unparse(st.iter) == "range(len(coordinates) - 1)"], "increasing loop")
+    inc_if = _only([st for st in inc_for.body if isinstance(st, ast.If)], "increasing test")
+    no_s = no_b = None
+    for st in ast.walk(fn):
+        if isinstance(st, ast.Assign) and ast.unparse(st.targets[0]) == "node_order[node]":
+            if ast.unparse(st.value.elts[0]) != "bo":
+                raise Untranslatable("scaffold numbering")
+            no_s = TrMap({}, lit_type="Nat").expr(st.value.elts[1])
+        if isinstance(st, ast.Assign) and ast.unparse(st.targets[0]) == "node_order[n]":
+            if ast.unparse(st.value.elts[0]) != "bo":
+                raise Untranslatable("bubble numbering")
+            no_b = TrMap({"i": "i"}, lit_type="Nat").expr(st.value.elts[1])
+    if no_s is None or no_b is None:
+        raise Untranslatable("numbering")
+    out.append("""/-- order_gfa.decompose_and_order: degree tests, the two census assertions (True = passes), the SN test, the orientation
+    test, the test that reports non-increasing offsets, and the NO numbers -/
+def isDegOne (d : Nat) : Bool := decide %s
+def isDegTwo (d : Nat) : Bool := decide %s
+def censusOne (n1 : Nat) : Bool := decide %s
+def censusTwo (n2 total : Nat) : Bool := decide %s
+def mixedSN (k : Nat) : Bool := decide %s
+def needsReverse (a b : Int) : Bool := decide %s
+def notIncreasing (x y : Int) : Bool := decide %s
+def scaffoldNo : Nat := %s
+def bubbleNo (i : Nat) : Nat := %s""" % (deg["degree_one"], deg["degree_two"], TrMap(mo).expr(a1), TrMap(mo).expr(a2), sn_test,
+                                          TrMap(mo).expr(rev_if2.test), TrMap(mo).expr(inc_if.test), no_s, no_b))
+
+    # ---- realign.wfa_alignment: the pass-through guard
+    _, src = src_of("gaftools/cli/realign.py")
+    fn = find_func(ast.parse(src), "wfa_alignment")
+    guard = _only([st for st in ast.walk(fn) if isinstance(st, ast.If) and "query_end" in ast.unparse(st.test) and "query_start" in ast.unparse(st.test)], "length guard")
+    out.append("""/-- realign.wfa_alignment: alignments that are passed through unchanged -/
+def tooLong (qs qe : Int) : Bool := decide %s""" % TrMap({"gaf_line.query_end": "qe", "gaf_line.query_start": "qs"}).expr(guard.test))
+
+    # ---- view.search: the region filter
+    _, src = src_of("gaftools/cli/view.py")
+    fn = find_func(ast.parse(src), "search")
+    ret = _only([st for st in fn.body if isinstance(st, ast.Return)], "return of search")
+    lc = ret.value
+    if not (isinstance(lc, ast.ListComp) and ast.unparse(lc.elt) == "n" and len(lc.generators) == 1 and ast.unparse(lc.generators[0].iter) == "node_list"
+            and len(lc.generators[0].ifs) == 1):
+        raise Untranslatable("search is not a filter over node_list")
+    t = TrMap({"n[2]": "so", "n[3]": "en", "int(node[1])": "a", "int(node[2])": "b"})
+    for st in fn.body:
+        if isinstance(st, ast.Assign) and isinstance(st.targets[0], ast.Name):
+            t.locals[st.targets[0].id] = t.expr(st.value)
+    out.append("""/-- view.search: an indexed node `[so, en)` of the contig is selected for the region `a-b` -/
+def regionHit (so en a b : Int) : Bool := decide %s""" % t.expr(lc.generators[0].ifs[0]))
+
+    # ---- stat.run_stat: thresholds of the CIGAR statistics
+    _, src = src_of("gaftools/cli/stat.py")
+    fn = find_func(ast.parse(src), "run_stat")
+    large = {}
+    for st in ast.walk(fn):
+        if isinstance(st, ast.If) and len(st.body) == 1 and isinstance(st.body[0], ast.AugAssign) and ast.unparse(st.body[0].target).endswith("_large"):
+            large[ast.unparse(st.body[0].target)] = TrMap({"int(all_cigars[cnt])": "n"}).expr(st.test)
+    if sorted(large) != ["total_del_large", "total_ins_large", "total_match_large", "total_x_large"]:
+        raise Untranslatable("large-event tests: %s" % sorted(large))
+    perfect = _only([st for st in ast.walk(fn) if isinstance(st, ast.If) and len(st.body) == 1 and isinstance(st.body[0], ast.AugAssign)
+                     and ast.unparse(st.body[0].target) == "total_perfect"], "perfect test")
+    out.append("""/-- stat.run_stat --cigar: a run counts as large; an alignment counts as perfect (`k` = number of CIGAR tokens) -/
+def largeDel (n : Int) : Bool := decide %s
+def largeIns (n : Int) : Bool := decide %s
+def largeSub (n : Int) : Bool := decide %s
+def largeMatch (n : Int) : Bool := decide %s
+def perfectTokens (k : Nat) : Bool := decide %s""" % (large["total_del_large"], large["total_ins_large"], large["total_x_large"], large["total_match_large"],
+                                                    TrMap({"len(all_cigars)": "(k : Int)"}).expr(perfect.test)))
+    return ("/-! generated by harness/translate.py from gaftools/cli/{sort,order_gfa,realign,view,stat}.py : decision fragments — do not edit -/\n"
+            "namespace Gaftools.Gen\n" + "\n\n".join(out) + "\nend Gaftools.Gen\n")
+
+
+GENERATORS["Decisions"] = gen_decisions
+
+
 def regenerate(only=None):
     """returns {name: {"tie": "A"|"B-only", "detail": str, "changed": bool}}"""
     os.makedirs(GEN, exist_ok=True)
@@ -463,6 +633,32 @@ def regenerate(only=None):
 
 
 FALLBACK = {
+    "Decisions": """/-! FALLBACK (source construct outside the translator's subset): the decisions as modelled by hand -/
+namespace Gaftools.Gen
+def sortInv (nf nr : Nat) : Bool := nf != 0 && nr != 0
+def sortRev (nf nr : Nat) : Bool := decide (nf < nr)
+def sortStartRev (plen ps pe : Int) : Int := plen - pe
+def sortStartFwd (plen ps pe : Int) : Int := ps
+def sortNodeRev : Int := -1
+def sortNodeFwd : Int := 1
+def isDegOne (d : Nat) : Bool := d == 1
+def isDegTwo (d : Nat) : Bool := d == 2
+def censusOne (n1 : Nat) : Bool := n1 == 2
+def censusTwo (n2 total : Nat) : Bool := decide ((n2 : Int) = (total : Int) - 2)
+def mixedSN (k : Nat) : Bool := k != 1
+def needsReverse (a b : Int) : Bool := decide (a > b)
+def notIncreasing (x y : Int) : Bool := !decide (x < y)
+def scaffoldNo : Nat := 0
+def bubbleNo (i : Nat) : Nat := i + 1
+def tooLong (qs qe : Int) : Bool := decide (qe - qs > 60000)
+def regionHit (so en a b : Int) : Bool := decide (so ≤ b ∧ a < en)
+def largeDel (n : Int) : Bool := decide (n ≥ 50)
+def largeIns (n : Int) : Bool := decide (n ≥ 50)
+def largeSub (n : Int) : Bool := decide (n ≥ 50)
+def largeMatch (n : Int) : Bool := decide (n ≥ 50)
+def perfectTokens (k : Nat) : Bool := k == 2
+end Gaftools.Gen
+""",
     "SearchIv": """import Gaftools.Model.Conv
 /-! FALLBACK (source construct outside the translator's subset): hand-written twin re-exported -/
 namespace Gaftools.Gen
